@@ -141,7 +141,14 @@ def r09b(ctx):
                 lp = c05.loop_of(a, b)
                 r = s['r']
                 opnd = r['b'] if r['k'] == 'bin' else None
-                tab = sv.table(lp[0] if lp else 0, b, opnd) if opnd else {}
+                tb = b
+                if opnd is None and r['k'] == 'use':
+                    # checked form: index = move (_t.0) with _t = AddWithOverflow(index, X)
+                    pl = r['a'].get('mv') or r['a'].get('cp')
+                    for d in a.flow.defs.get(pl['l'], []) if pl else []:
+                        if d[0] == 'assign' and d[3]['k'] == 'bin':
+                            opnd, tb = d[3]['b'], d[1]
+                tab = sv.table(lp[0] if lp else 0, tb, opnd) if opnd else {}
                 ok, why = symval.table_matches(tab, symval.expected_records(with_header=True))
                 ctx.check(ok, 'R09b', a.path, 'index advance', a.loc(b, si), 'the exporter advances its file entry index by 1+n*(1+V)+E', 'keyed-shard exporter: ' + why)
                 done = True
